@@ -396,3 +396,142 @@ pub proof fn lemma_sorted_strict_is_sorted_by_start(s: Seq<Segment>)
         if i < j { assert(s[i].start_offset < s[j].start_offset); }
     }
 }
+
+// ================================ topic level =================================================================
+// R8 map-iteration schema by reference: `m.iter()` yields each entry exactly once, in an unspecified order
+pub open spec fn entries_of_ref<K, V>(m: Map<K, V>, e: Seq<(&K, &V)>) -> bool {
+    &&& forall|i: int, j: int| 0 <= i < j < e.len() ==> *e[i].0 != *e[j].0
+    &&& forall|i: int| 0 <= i < e.len() ==> m.contains_key(*(#[trigger] e[i]).0) && m[*e[i].0] == *e[i].1
+    &&& forall|k: K| #[trigger] m.contains_key(k) ==> exists|i: int| 0 <= i < e.len() && *(#[trigger] e[i]).0 == k
+}
+impl<K, V> HashMap<K, V> {
+    #[verifier::external_body]
+    pub fn iter_entries(&self) -> (r: Vec<(&K, &V)>)
+        ensures entries_of_ref(self@, r@),
+    { unimplemented!() }
+}
+
+// R8 schema `m.into_iter().map(F).collect()`: F applied to each entry once, in the (unspecified) iteration order
+#[verifier::external_body]
+#[verifier::accept_recursive_types(B)]
+pub struct MappedIter<B> { _p: core::marker::PhantomData<B> }
+impl<B> View for MappedIter<B> { type V = Seq<B>; uninterp spec fn view(&self) -> Seq<B>; }
+impl<B> MappedIter<B> {
+    #[verifier::external_body]
+    pub fn collect(self) -> (r: Vec<B>) ensures r@ == self@, { unimplemented!() }
+}
+#[verifier::external_body]
+pub fn std_map_into_iter_map<K, V, B>(m: &HashMap<K, V>, Ghost(f): Ghost<spec_fn((K, V)) -> B>) -> (r: MappedIter<B>)
+    ensures exists|e: Seq<(K, V)>| #![trigger entries_of(m@, e)] entries_of(m@, e) && r@.len() == e.len() && forall|i: int| #![trigger r@[i]] #![trigger e[i]] 0 <= i < e.len() ==> r@[i] == f(e[i]),
+{ unimplemented!() }
+
+// `l` is what the property allows a pass to list for partition `p` at `now`: exactly the start offsets of the segments
+// satisfying [C14.dec], ascending
+pub open spec fn expired_list(p: Partition, now: int, l: Seq<u64>) -> bool {
+    &&& forall|k: int| 0 <= k < l.len() ==> expired_start(p.segments@, p.segments@.len() as int, now, #[trigger] l[k])
+    &&& forall|i: int| 0 <= i < p.segments@.len() && seg_expired(#[trigger] p.segments@[i], now) ==> l.contains(p.segments@[i].start_offset)
+    &&& sorted_u64(l)
+    &&& segs_sorted(p.segments@) ==> strict_u64(l)
+}
+pub open spec fn has_expired(p: Partition, now: int) -> bool {
+    exists|i: int| 0 <= i < p.segments@.len() && seg_expired(#[trigger] p.segments@[i], now)
+}
+// partitions are stored under their own id
+pub open spec fn topic_keys_wf(t: Topic) -> bool {
+    forall|k: u32| #[trigger] t.partitions@.contains_key(k) ==> t.partitions@[k].partition_id == k
+}
+pub open spec fn topic_map_sound(t: Topic, now: int, m: Map<u32, Vec<u64>>) -> bool {
+    forall|pid: u32| #[trigger] m.contains_key(pid) ==> t.partitions@.contains_key(pid) && m[pid]@.len() > 0 && expired_list(t.partitions@[pid], now, m[pid]@)
+}
+
+// what a maintenance pass may hand to delete_segments for topic `t` at `now` ([C14.only]): one entry per partition that
+// has expired segments, each listing exactly that partition's expired closed segments, ascending
+pub open spec fn pass_list_sound(t: Topic, now: int, l: Seq<SegmentsToHandle>) -> bool {
+    &&& forall|k: int| 0 <= k < l.len() ==> t.partitions@.contains_key((#[trigger] l[k]).partition_id) && l[k].start_offsets@.len() > 0
+            && expired_list(t.partitions@[l[k].partition_id], now, l[k].start_offsets@)
+    &&& forall|k1: int, k2: int| 0 <= k1 < k2 < l.len() ==> (#[trigger] l[k1]).partition_id != (#[trigger] l[k2]).partition_id
+}
+pub open spec fn pass_list_complete(t: Topic, now: int, l: Seq<SegmentsToHandle>) -> bool {
+    forall|pid: u32| #[trigger] t.partitions@.contains_key(pid) && has_expired(t.partitions@[pid], now)
+        ==> exists|k: int| 0 <= k < l.len() && (#[trigger] l[k]).partition_id == pid
+}
+
+// ---- delete_segments vocabulary --------------------------------------------------------------------------------
+// R5/R6: `topic.get_partition(id)` hands out the IggySharedMut<Partition> stored under `id` (an Arc clone of the lock);
+// with the lock dropped and the Arc alias made explicit this is a mutable reference into the topic's map.
+impl Topic {
+    #[verifier::external_body]
+    pub fn get_partition(&mut self, partition_id: u32) -> (r: Result<&mut Partition, IggyError>)
+        ensures
+            final(self).stream_id == old(self).stream_id && final(self).topic_id == old(self).topic_id
+                && final(self).message_expiry == old(self).message_expiry && final(self).config == old(self).config,
+            match r {
+                Ok(p) => old(self).partitions@.contains_key(partition_id) && *p == old(self).partitions@[partition_id]
+                    && final(self).partitions@ == old(self).partitions@.insert(partition_id, *final(p)),
+                Err(_) => !old(self).partitions@.contains_key(partition_id) && final(self).partitions@ == old(self).partitions@,
+            },
+    { unimplemented!() }
+}
+
+pub open spec fn part_wf(p: Partition) -> bool {
+    &&& p.segments@.len() > 0
+    &&& segs_sorted(p.segments@) && segs_wf(p.segments@)
+    &&& p.segments@.last().is_closed ==> p.segments@.last().end_offset == p.current_offset
+}
+pub open spec fn topic_wf(t: Topic) -> bool {
+    forall|k: u32| #[trigger] t.partitions@.contains_key(k) ==> t.partitions@[k].partition_id == k && part_wf(t.partitions@[k])
+}
+pub open spec fn not_listed(lo: Seq<u64>) -> spec_fn(Segment) -> bool { |s: Segment| !lo.contains(s.start_offset) }
+
+// an entry handed to delete_segments for partition p: ascending, and every listed start offset names a CLOSED segment of p
+pub open spec fn del_entry_ok(p: Partition, lo: Seq<u64>) -> bool {
+    &&& strict_u64(lo)
+    &&& forall|m: int| 0 <= m < lo.len() ==> exists|i: int| 0 <= i < p.segments@.len() && (#[trigger] p.segments@[i]).start_offset == #[trigger] lo[m] && p.segments@[i].is_closed
+}
+pub open spec fn del_list_ok(t: Topic, l: Seq<SegmentsToHandle>) -> bool {
+    &&& forall|k: int| 0 <= k < l.len() && t.partitions@.contains_key((#[trigger] l[k]).partition_id) ==> del_entry_ok(t.partitions@[l[k].partition_id], l[k].start_offsets@)
+    &&& forall|k1: int, k2: int| 0 <= k1 < k2 < l.len() ==> (#[trigger] l[k1]).partition_id != (#[trigger] l[k2]).partition_id
+}
+pub open spec fn total_listed(l: Seq<SegmentsToHandle>, n: int) -> int
+    decreases n
+{
+    if n <= 0 { 0 } else { total_listed(l, n - 1) + l[n - 1].start_offsets@.len() }
+}
+pub proof fn lemma_total_mono(l: Seq<SegmentsToHandle>, a: int, b: int)
+    requires 0 <= a <= b,
+    ensures total_listed(l, a) <= total_listed(l, b),
+    decreases b - a
+{
+    if a < b { lemma_total_mono(l, a, b - 1); }
+}
+
+// effect of one successfully processed entry on its partition ([C14.only] exact + [C14.off]):
+// exactly the listed segments are gone, the others are kept as they were and in order; offsets untouched; if nothing is
+// left, one fresh open segment starting at current_offset + 1 replaces them
+pub open spec fn block_ok(p0: Partition, p1: Partition, lo: Seq<u64>) -> bool {
+    &&& part_frame(p0, p1)
+    &&& seq_keep(p0.segments@, not_listed(lo)).len() > 0 ==> p1.segments@ == seq_keep(p0.segments@, not_listed(lo))
+    &&& seq_keep(p0.segments@, not_listed(lo)).len() == 0 ==> p1.segments@.len() == 1
+            && fresh_segment(p1.segments@[0], (p0.current_offset + 1) as u64, p0.message_expiry, *p0.config)
+            && p0.current_offset + 1 <= u64::MAX
+}
+// what holds for a partition in EVERY outcome (also when an I/O error ends the pass early): offsets untouched and
+// no segment that was not listed is lost or altered
+pub open spec fn block_sound(p0: Partition, p1: Partition, lo: Seq<u64>) -> bool {
+    &&& part_frame(p0, p1)
+    &&& forall|i: int| 0 <= i < p0.segments@.len() && !lo.contains((#[trigger] p0.segments@[i]).start_offset)
+            ==> exists|j: int| 0 <= j < p1.segments@.len() && #[trigger] p1.segments@[j] == p0.segments@[i]
+}
+pub proof fn lemma_block_ok_sound(p0: Partition, p1: Partition, lo: Seq<u64>)
+    requires block_ok(p0, p1, lo),
+    ensures block_sound(p0, p1, lo),
+{
+    lemma_keep_props(p0.segments@, not_listed(lo));
+    let k = seq_keep(p0.segments@, not_listed(lo));
+    assert forall|i: int| 0 <= i < p0.segments@.len() && !lo.contains((#[trigger] p0.segments@[i]).start_offset)
+        implies exists|j: int| 0 <= j < p1.segments@.len() && #[trigger] p1.segments@[j] == p0.segments@[i] by {
+        assert(not_listed(lo)(p0.segments@[i]));
+        let j = choose|j: int| 0 <= j < k.len() && k[j] == p0.segments@[i];
+        assert(p1.segments@[j] == p0.segments@[i]);
+    }
+}
